@@ -489,6 +489,9 @@ class Interp:
             env.clear(); env.update(e2)
 
     def st_For(self, st, ctx, env):
+        inv = self.loop_contract(st)
+        if inv is not None:
+            return inv(self, st, ctx, env)
         it = self.eval(st.iter, ctx, env)
         if ctx.dead:
             return
@@ -551,7 +554,7 @@ class Interp:
             env.clear(); env.update(e2)
 
     def loop_contract(self, st):
-        """sidecar loop contract for this `while` node (installed by a driver, see pyvc/cascade.py)"""
+        """sidecar loop contract for this `while` / `for` node (installed by a driver, see pyvc/cascade.py)"""
         return getattr(self, 'loop_cuts', {}).get(id(st))
 
     def st_Try(self, st, ctx, env):
@@ -1477,6 +1480,14 @@ class Interp:
         return self.call_func(ctx, fn, args, kwargs, node)
 
     def call_native(self, f, args, kwargs, ctx, node):
+        over = getattr(self, 'native_cuts', None)
+        if over:
+            try:
+                ent = over.get(id(f))
+            except Exception:   # noqa
+                ent = None
+            if ent is not None and ent[0] is f:
+                return ent[1](self, ctx, args, kwargs, node)
         model = models.lookup(f)
         if model is not None:
             if model not in models.CHOICE_AWARE:
